@@ -358,6 +358,15 @@ where
         Ok(())
     }
 
+    /// Verification hook: records that the connection was lost `secs_ago` seconds ago,
+    /// so that the next [run](Context::run) takes the session-resumption path.
+    ///
+    #[cfg(feature = "verif")]
+    pub fn verif_mark_disconnected(&mut self, secs_ago: u64) {
+        self.connection.disconnection_timestamp =
+            Some(SystemTime::now() - std::time::Duration::from_secs(secs_ago));
+    }
+
     /// Creates a new [Context] instance, paired with [ContextHandle].
     ///
     pub fn new() -> (Self, ContextHandle) {
